@@ -350,8 +350,22 @@ def r2_history(ctx):
     first_outside = [b for b in gsets if not cg_.in_loop(b)]
     ok = bool(first_outside) and all(cg_.dominates(first_outside[0], m) for m in gmakes)
     ctx.ob(rid, "replay|initial-position-recorded", ok, "" if ok else "the start position is not recorded before the first move is replayed", ctx.where(g))
+    heads_ = {h for (a_, h) in cg_.back_edges()}
     for m in gmakes:
-        ok = any(cg_.postdominates(s_, m) and s_ != m and cg_.dominates(m, s_) for s_ in gsets)
+        # from the make, can the next iteration or a return be reached without recording? (paths into a failed
+        # assertion end the program and are no such path)
+        seen_, work_ = set(), list(cg_.succ[m])
+        escaped = False
+        while work_:
+            x = work_.pop()
+            if x in seen_ or x in gsets or g["blocks"][x]["cleanup"]:
+                continue
+            seen_.add(x)
+            if g["blocks"][x]["term"]["k"] == "return" or (x in heads_ and cg_.dominates(x, m)):
+                escaped = True
+                break
+            work_.extend(cg_.succ[x])
+        ok = not escaped
         ctx.ob(rid, "replay|set-after-make", ok, "" if ok else "a replayed move is not followed by recording the new position on every path",
                ctx.where(g, g["blocks"][m]["term"]["line"]))
     for s_ in gsets:
@@ -490,7 +504,18 @@ def r6_counter_walk(ctx):
         while t[0] == "cast":
             t = t[2]
         return t
-    ok = init[0] == "bin" and init[1].startswith("Sub") and strip(init[2]) == START and init[3][0] == "c" and init[3][1] == 4
+    # `start - 4` with the 4 written as a literal, a named constant or a cast of one
+    sub_const = None
+    if init[0] == "bin" and init[1].startswith("Sub") and strip(init[2]) == START:
+        try:
+            sub_const = fold(init[3])
+        except Unfoldable:
+            sub_const = None
+    if not (init[0] == "bin" and init[1].startswith("Sub") and strip(init[2]) == START) or sub_const is None:
+        # the first index visited is not written as `start - <constant>` (a window computed by a helper, an iterator)
+        ctx.lost(rid, "the first history index the walk visits (found %s)" % show(init)[:80])
+        return
+    ok = sub_const == 4
     ctx.ob(rid, "starts-four-plies-back", ok, "" if ok else "the walk starts at %s (expected start - 4)" % show(init), ctx.where(f), sample={"init": show(init)})
     ctx.ob(rid, "steps-by-two", step == 2, "" if step == 2 else "the walk steps by %s (expected 2: entries with the same side to move)" % step, ctx.where(f), sample={"step": step})
     # loop test
